@@ -17,7 +17,7 @@ use serde::{Deserialize, Serialize};
 use serde_json::{json, Value};
 
 use crate::{
-    explore::{bfs, Outcome as BfsOutcome},
+    explore::{bfs_nd, Outcome as BfsOutcome},
     report::Report,
     sut::{block_on, block_on_park},
     universe::{author_id, ns_id, ns_secret, Spec, Val, T0},
@@ -956,7 +956,7 @@ fn run(ctx: &Ctx, report: &mut Report) {
         let depth = 4 * max_dials + 2 + max_leaves as usize;
         let mut evals = 0u64;
         let mut nt = 0u64;
-        bfs(ctx, report, &evs, depth, 2, |h, report, ordinal| {
+        bfs_nd(ctx, report, &evs, depth, 2, if ctx.quick() { 1 } else { 2 }, |h, report, ordinal| {
             let res = catch(|| exec(h, max_dials, max_leaves, mode));
             let case = json!({"hist": h, "max_dials": max_dials, "max_leaves": max_leaves, "queued": queued, "mode": mode});
             match res {
